@@ -1,16 +1,33 @@
 """C42 — compilation is deterministic (DESIGN 7/C42)."""
-import os, sys, json, glob, subprocess, hashlib, shutil, concurrent.futures as cf
+import os, sys, json, glob, subprocess, hashlib, shutil, re, itertools, concurrent.futures as cf
 import cybuild
+
+EXTRACTS = ["Session"]
 
 TITLE = "Compilation is deterministic"
 RULE = ("(module, hash seed / process / batch mode) compilations: generated feature-rich modules and corpus files from "
         "/repo/tests/run, each translated in separate processes under several PYTHONHASHSEED values, in isolation and "
-        "inside a cythonize(nthreads>1) batch; distinct by (module, mode); a case is a byte comparison of two C files")
+        "inside a cythonize(nthreads>1) batch; distinct by (module, mode); a case is a byte comparison of two C files. "
+        "Session families: generated module sets that share cimported .pxd files (inline / fused / ctuple / plain cdef "
+        "functions, structs, enums, cdef classes, extern blocks, a .pxd cimported by the .pxd, an include file, a memoryview "
+        "user, optionally the implementation module of the .pxd), every used-only entry marked by a nonempty proper subset "
+        "of the cimporting modules (all subsets cycled); each module compiled alone in a fresh process and in batches in "
+        "every order (all permutations of 3, a sample for more) through Main.compile(list), Main.compile_multiple, the "
+        "command line (Main.main), cythonize(nthreads 0 / 4), and repeatedly in one process; distinct by "
+        "(family, entry point, order, module)")
 EXPLANATION = ("theorem: emission after sorting on a unique key is independent of the collection order (any permutation), "
                "and complete; with tied keys it is not (refuted), which is why the keys in Code.py carry the unique cname. "
+               "session theorems (M_Session: a Context caching parsed .pxd scopes with per-entry used marks): with the reset "
+               "in compile_multiple every module of every batch in every order gets its isolated output; without it the output "
+               "is characterised exactly (own marks + marks of every earlier module), equals the isolated one for batches "
+               "sharing no .pxd and differs for every batch where an earlier module marks a used-only entry the module does not "
+               "(refuted with witness); tied to the code by observing the Context objects / parsed .pxd files per source and "
+               "the written prototypes per (order, module). "
                "partial: every other place where the compiler iterates over a set or dict is covered only by the byte "
                "comparison of complete C outputs under different hash seeds / processes / batch modes.")
-TRUSTED = ["the byte comparison harness", "Python's list.sort() being a stable total sort"]
+TRUSTED = ["the byte comparison harness", "Python's list.sort() being a stable total sort",
+           "the classification of .pxd entries into always-written / written-when-used (checked against the isolated outputs)",
+           "monkeypatched Main.run_pipeline / Context.process_pxd in the worker as the observation of context sharing"]
 ASSUMPTIONS = ["same sources, same options, same relative paths, same working directory layout"]
 
 CORPUS = ["tests/run/closures_T82.pyx", "tests/run/cdef_class_dataclass.pyx", "tests/run/fused_def.pyx",
@@ -163,6 +180,9 @@ def run(ctx):
     wd = ctx.workdir
     src = os.path.join(wd, "src")
     os.makedirs(src, exist_ok=True)
+    # the session families run in the background while the seed / batch comparisons below use their own pools
+    session_ex = cf.ThreadPoolExecutor(max_workers=6 if quick else 8)
+    session_fams = start_session_families(ctx, session_ex)
     files = []
     for k in range(3 if quick else 8):
         name = "c42_gen%d.pyx" % k
@@ -264,6 +284,8 @@ def run(ctx):
             if other != ref:
                 ctx.fail("c_output_depends_on_hash_seed", {"module": f, "seeds": [mseeds[0], sd], "entry": "cythonize"},
                          first_diff(ref, other) if other is not None else str(mstat[sd])[:300], "byte-identical C files")
+    evaluate_session_families(ctx, session_fams)
+    session_ex.shutdown()
     if not quick:
         run_selfcompiled(ctx, wd, src, usable, os.path.join(wd, "out_seed%d" % seeds[0]))
     ctx.extra["modules_compared"] = usable
@@ -363,3 +385,584 @@ def first_diff(a, b):
         if x != y:
             return {"line": i + 1, "a": x[:200].decode("utf8", "replace"), "b": y[:200].decode("utf8", "replace")}
     return {"line": min(len(la), len(lb)), "a": "length %d" % len(la), "b": "length %d" % len(lb)}
+
+
+# ======================================================================================================
+# Session families: module sets sharing cimported .pxd files, compiled alone / in batches in every order
+# ======================================================================================================
+
+WORDS = ["alpha", "beta", "gamma", "delta", "eps", "zeta", "eta", "theta", "iota", "kappa", "lam", "mu", "nu", "xi"]
+
+
+# expressions over builtins (Builtin.builtin_scope is one object shared by every compilation of a process)
+BUILTIN_EXPRS = ["len(list(o))", "isinstance(o, (bytearray, frozenset))", "dict(a=1).get('a')", "abs(-3) + divmod(7, 2)[0]",
+                 "complex(1, 2).real", "sorted(set(o))", "str(o).encode('utf8')", "(getattr(o, 'x', None), hasattr(o, 'y'))",
+                 "(bytes(3), memoryview(b'ab')[0])", "max(1, 2, 3) + min(4, 5)", "(any(x for x in o), sum(o))",
+                 "('%s-%d' % ('a', 1), f'{o!r:>5}')", "(o.decode('ascii') if isinstance(o, bytes) else unicode(o))",
+                 "tuple(reversed(range(3)))", "(int(o) ** 2, float(o) // 2, pow(2, 5, 7))", "{k: v for k, v in enumerate(o)}.items()"]
+
+
+def proper_subsets(items):
+    """nonempty proper subsets of items, smallest first"""
+    out = []
+    for r in range(1, len(items)):
+        out += [list(c) for c in itertools.combinations(items, r)]
+    return out
+
+
+def gen_family(rng, tag, nmod, with_impl=False, with_mv=False):
+    """-> dict(files={name: text}, modules=[pyx names], pxds=[{name, entries:[{name, kind, decl}]}],
+               model=[per module: [(pxd index, [marked entry indices])]] or None (family with implementation module),
+               impl=name or None)
+    kind 'A': declaration written for every cimporting module; 'U': written only when the entry is marked used."""
+    S, U, T = "c42%s_sh" % tag, "c42%s_ut" % tag, "c42%s_tx" % tag
+    w = WORDS[:]
+    rng.shuffle(w)
+    K = [rng.randrange(2, 90) for _ in range(12)]
+    n_inl = rng.randrange(2, 5)
+    # ---- entries: (name, kind, declaration lines in the .pxd, use expression / statements) ----
+    s_entries = [
+        dict(name="Pair_" + w[0], kind="A", cat="struct"),
+        dict(name="Color_" + w[1], kind="A", cat="enum"),
+        dict(name="Base_" + w[2], kind="A", cat="class"),
+        dict(name="u64_" + w[3], kind="A", cat="typedef"),
+    ]
+    for i in range(n_inl):
+        s_entries.append(dict(name="inl%d_%s" % (i, w[4 + i]), kind="U", cat=rng.choice(["inline_int", "inline_dbl", "inline_struct"])))
+    s_entries += [
+        dict(name="fmx_" + w[8], kind="U", cat="fused"),
+        dict(name="both_" + w[9], kind="U", cat="ctuple"),
+        dict(name="via_" + w[10], kind="U", cat="calls_ut"),
+        dict(name="plain_" + w[11], kind="U", cat="plain"),
+    ]
+    u_entries = [dict(name="Rec_" + w[0], kind="A", cat="struct"),
+                 dict(name="ustep_" + w[1], kind="U", cat="inline_int"),
+                 dict(name="uother_" + w[2], kind="U", cat="inline_int")]
+    t_entries = [dict(name="TEnum_" + w[3], kind="A", cat="enum"),
+                 dict(name="tin_" + w[4], kind="U", cat="inline_int"),
+                 dict(name="tdb_" + w[5], kind="U", cat="inline_dbl")]
+    pair, color, base = s_entries[0]["name"], s_entries[1]["name"], s_entries[2]["name"]
+    ustep = u_entries[1]["name"]
+
+    def decl(modname, e, k):
+        n, c = e["name"], e["cat"]
+        if c == "struct":
+            return ["cdef struct %s:" % n, "    int a", "    int b", ""]
+        if c == "enum":
+            return ["cdef enum %s:" % n, "    %s_LO = %d" % (n.upper(), k), "    %s_HI" % n.upper(), ""]
+        if c == "class":
+            return ["cdef class %s:" % n, "    cdef int n", "    cdef int get(self)", ""]
+        if c == "typedef":
+            return ["ctypedef unsigned long long %s" % n, ""]
+        if c == "inline_int":
+            return ["cdef inline int %s(int x):" % n, "    return x * %d + 1" % k, ""]
+        if c == "inline_dbl":
+            return ["cdef inline double %s(double x) noexcept nogil:" % n, "    return x / %d.0" % k, ""]
+        if c == "inline_struct":
+            return ["cdef inline int %s(%s p):" % (n, pair), "    return p.a + p.b * %d" % k, ""]
+        if c == "fused":
+            return ["cdef inline c42num_t %s(c42num_t a, c42num_t b):" % n, "    return a if a > b else b", ""]
+        if c == "ctuple":
+            return ["cdef inline (int, double) %s(int a):" % n, "    return a, a * %d.5" % k, ""]
+        if c == "calls_ut":
+            return ["cdef inline int %s(int v):" % n, "    return %s.%s(v) + %d" % (U, ustep, k), ""]
+        if c == "plain":
+            return ["cdef int %s(int x)" % n, ""]
+        raise ValueError(c)
+
+    hdr = "c42%s_hdr.h" % tag
+    files = {hdr: "static int c42%s_extfn(int x) { return x + %d; }\n#define C42%s_EXTC %d\n" % (tag, K[0], tag.upper(), K[1])}
+    L = ["cimport %s" % U, "", 'cdef extern from "math.h":', "    double sin(double)", "    double cos(double)", "",
+         'cdef extern from "%s":' % hdr, "    int c42%s_extfn(int)" % tag, "    int C42%s_EXTC" % tag.upper(), "",
+         "ctypedef fused c42num_t:", "    int", "    double", ""]
+    for i, e in enumerate(s_entries):
+        L += decl(S, e, K[i % len(K)])
+    files[S + ".pxd"] = "\n".join(L) + "\n"
+    L = []
+    for i, e in enumerate(u_entries):
+        L += decl(U, e, K[(i + 3) % len(K)])
+    files[U + ".pxd"] = "\n".join(L) + "\n"
+    L = []
+    for i, e in enumerate(t_entries):
+        L += decl(T, e, K[(i + 5) % len(K)])
+    files[T + ".pxd"] = "\n".join(L) + "\n"
+    pxi = "c42%s_common.pxi" % tag
+    files[pxi] = "cdef inline int c42%s_pxi(int v):\n    return v * %d\n" % (tag, K[6])
+    pxds = [dict(name=S, entries=s_entries), dict(name=U, entries=u_entries), dict(name=T, entries=t_entries)]
+
+    # ---- which module cimports which .pxd: S and U by at least two modules, T not by all, one module (if >3) none ----
+    mods = list(range(nmod))
+    while True:
+        cim = [[rng.random() < 0.8, rng.random() < 0.6, rng.random() < 0.5] for _ in mods]
+        if nmod > 3:
+            cim[rng.randrange(nmod)] = [False, False, False]
+        if nmod <= 3 and not all(any(c) for c in cim):
+            continue
+        if sum(c[0] for c in cim) >= 2 and sum(c[0] or c[1] for c in cim) >= 2 and 1 <= sum(c[2] for c in cim) < nmod:
+            break
+    # ---- who marks which entry: every used-only entry by a nonempty proper subset of its cimporters (subsets cycled) ----
+    users = {}
+    cyc = {}
+    for pi, pd in enumerate(pxds):
+        cimporters = [m for m in mods if cim[m][pi]]
+        subs = proper_subsets(cimporters) or [[], cimporters]
+        rng.shuffle(subs)
+        cyc[pi] = subs
+        for ei, e in enumerate(pd["entries"]):
+            users[(pi, ei)] = subs[ei % len(subs)] if e["kind"] == "U" else (rng.sample(cimporters, rng.randrange(0, len(cimporters) + 1)) if cimporters else [])
+    names = []
+    model = []
+    for m in mods:
+        mname = "c42%s_m%d" % (tag, m)
+        names.append(mname + ".pyx")
+        style = rng.choice(["from", "mod"])
+        head = ["# cython: language_level=3"]
+        incl = rng.random() < 0.5
+        if incl:
+            head.append('include "%s"' % pxi)
+        if rng.random() < 0.5:
+            head.append("from libc.math cimport sqrt")
+            libm = True
+        else:
+            libm = False
+        body = ["def f_%s(double x, int k, obj=None):" % mname, "    acc = 0.0"]
+        pre = []
+        extra_defs = []
+        for pi, pd in enumerate(pxds):
+            if not cim[m][pi]:
+                continue
+            P = pd["name"]
+            used = [ei for ei in range(len(pd["entries"])) if m in users[(pi, ei)]]
+            imported = []
+            q = (lambda n: n) if style == "from" else (lambda n, P=P: P + "." + n)
+            for ei in used:
+                e = pd["entries"][ei]
+                n, c = e["name"], e["cat"]
+                imported.append(n)
+                if c == "struct":
+                    pre.append("    cdef %s st_%d_%d" % (q(n), pi, ei))
+                    body.append("    st_%d_%d.a = k; acc += st_%d_%d.a" % (pi, ei, pi, ei))
+                elif c == "enum":
+                    imported.append(n.upper() + "_HI")
+                    body.append("    acc += %s" % q(n.upper() + "_HI"))
+                elif c == "class":
+                    extra_defs += ["def g_%s_%d(%s b):" % (mname, ei, q(n)), "    return b.n", ""]
+                elif c == "typedef":
+                    pre.append("    cdef %s big_%d = %d" % (q(n), ei, K[7]))
+                    body.append("    acc += big_%d" % ei)
+                elif c in ("inline_int", "calls_ut", "plain"):
+                    body.append("    acc += %s(k)" % q(n))
+                elif c == "inline_dbl":
+                    body.append("    acc += %s(x)" % q(n))
+                elif c == "inline_struct":
+                    if pair not in imported:
+                        imported.append(pair)
+                    pre.append("    cdef %s sp_%d" % (q(pair), ei))
+                    body.append("    sp_%d.a = k; sp_%d.b = 2; acc += %s(sp_%d)" % (ei, ei, q(n), ei))
+                elif c == "fused":
+                    # (a fused function reached as module attribute, 'mod.f(k, 2) + mod.f(x, 2.0)', crashes type
+                    # inference in the unchanged tree - unrelated to this property; it is always cimported by name)
+                    if style != "from":
+                        head.append("from %s cimport %s" % (P, n))
+                    body.append("    acc += %s(k, 2) + %s(x, 2.0)" % (n, n))
+                elif c == "ctuple":
+                    body.append("    acc += %s(k)[0]" % q(n))
+            if pi == 0 and rng.random() < 0.5:
+                imported.append("sin")
+                body.append("    acc += %s(x)" % q("sin"))
+            if style == "from":
+                form = "names" if imported else "bare"
+                if form == "bare":
+                    head.append("cimport %s" % P)
+                else:
+                    head.append("from %s cimport %s" % (P, ", ".join(dict.fromkeys(imported))))
+            else:
+                head.append("cimport %s" % P)
+        if libm:
+            body.append("    acc += sqrt(x * x)")
+        if incl:
+            body.append("    acc += c42%s_pxi(k)" % tag)
+        for bi in sorted(rng.sample(range(len(BUILTIN_EXPRS)), rng.randrange(2, 7))):
+            extra_defs += ["def h%d_%s(o):" % (bi, mname), "    return " + BUILTIN_EXPRS[bi], ""]
+        if with_mv and m == nmod - 1:
+            extra_defs += ["def mv_%s(double[:] a, int[:, ::1] b):" % mname, "    return a[0] + b[0, 0]", ""]
+        body.append("    return acc, %r" % (w[m % len(w)] + mname))
+        files[mname + ".pyx"] = "\n".join(head + [""] + body[:2] + pre + body[2:] + [""] + extra_defs) + "\n"
+        # the module as the session model sees it: cimported scopes transitively closed (S cimports U and the
+        # body of S's via_* function marks U's ustep whenever S is loaded)
+        loads = [cim[m][0], cim[m][1] or cim[m][0], cim[m][2]]
+        mm = []
+        for pi in range(3):
+            if loads[pi]:
+                marked = sorted(ei for ei in range(len(pxds[pi]["entries"])) if m in users[(pi, ei)] and cim[m][pi]
+                                and pxds[pi]["entries"][ei]["kind"] == "U")
+                if pi == 1 and cim[m][0] and 1 not in marked:
+                    marked = sorted(marked + [1])
+                mm.append((pi, marked))
+        model.append(mm)
+    impl = None
+    if with_impl:
+        impl = S + ".pyx"
+        plain = [e["name"] for e in s_entries if e["cat"] == "plain"][0]
+        files[impl] = "\n".join(["# cython: language_level=3", "cdef class %s:" % base, "    cdef int get(self):", "        return self.n + %d" % K[8], "",
+                                 "cdef int %s(int x):" % plain, "    return x + %d" % K[9], "",
+                                 "def make_%s():" % tag, "    return %s()" % base, ""]) + "\n"
+        names.append(impl)
+        model = None
+    return dict(tag=tag, files=files, modules=names, pxds=pxds, model=model, impl=impl,
+                cimports=[[pxds[pi]["name"] for pi in range(3) if c[pi]] for c in cim])
+
+
+def entry_patterns(fam):
+    """regexes that find the C declaration of each .pxd entry: {(pxd index, entry index): compiled regex}"""
+    pats = {}
+    for pi, pd in enumerate(fam["pxds"]):
+        mod = pd["name"]
+        mangled = "%d%s" % (len(mod), mod)
+        for ei, e in enumerate(pd["entries"]):
+            n = re.escape(e["name"])
+            if e["kind"] == "U":
+                pats[(pi, ei)] = re.compile(r"^static [^\n]*__pyx_f_%s_%s\)?\([^\n]*/\*proto\*/$" % (mangled, n), re.M)
+            elif e["cat"] == "class":
+                pats[(pi, ei)] = re.compile(r"^struct __pyx_obj_%s_%s \{" % (mangled, n), re.M)
+            elif e["cat"] == "typedef":
+                pats[(pi, ei)] = re.compile(r"^typedef [^\n]* __pyx_t_%s_%s;" % (mangled, n), re.M)
+            else:
+                pats[(pi, ei)] = re.compile(r"^(struct|enum|union) __pyx_t_%s_%s \{" % (mangled, n), re.M)
+    return pats
+
+
+def written_entries(fam, c_bytes, pats):
+    txt = c_bytes.decode("utf8", "replace")
+    return sorted(k for k, p in pats.items() if p.search(txt))
+
+
+SESSION_WORKER = r'''
+import sys, os, json, shutil
+sys.path.insert(0, os.environ["VERIF_HARNESS"])
+import pyload; pyload.install()
+from Cython.Compiler import Main, Options
+pyload.assert_sources()
+spec = json.loads(sys.argv[1])
+os.chdir(spec["cwd"])
+
+# observation of the session structure: which Context object each source is compiled with, and which
+# .pxd files that compilation parses (monkeypatched from here; nothing in the repository is touched)
+CONTEXTS = []          # kept alive, so identities stay distinct
+LOG = []               # per run_pipeline call: {"src":, "ctx": index into CONTEXTS, "parsed": [...]}
+_orig_run_pipeline = Main.run_pipeline
+_orig_process_pxd = Main.Context.process_pxd
+
+def _ctx_index(c):
+    for i, x in enumerate(CONTEXTS):
+        if x is c:
+            return i
+    CONTEXTS.append(c)
+    return len(CONTEXTS) - 1
+
+def run_pipeline(source, options, full_module_name, context):
+    LOG.append({"src": os.path.basename(source), "ctx": _ctx_index(context), "parsed": []})
+    return _orig_run_pipeline(source, options, full_module_name, context)
+
+def process_pxd(self, source_desc, scope, module_name):
+    if LOG:
+        LOG[-1]["parsed"].append(os.path.basename(source_desc.filename))
+    return _orig_process_pxd(self, source_desc, scope, module_name)
+
+Main.run_pipeline = run_pipeline
+Main.Context.process_pxd = process_pxd
+
+def opts(**kw):
+    return Main.CompilationOptions(Main.default_options, **kw)
+
+results = []
+for step in spec["steps"]:
+    files = step["files"]
+    for f in files:
+        for ext in (".c",):
+            if os.path.exists(f[:-4] + ext):
+                os.unlink(f[:-4] + ext)
+    LOG = []
+    n0 = len(CONTEXTS)
+    r = {"ep": step["ep"], "files": files, "err": None}
+    try:
+        ep = step["ep"]
+        if ep == "compile_str":            # Main.compile(one string): compile_single
+            for f in files:
+                Main.compile(f, opts())
+        elif ep == "compile_list":         # Main.compile(list): compile_multiple
+            Main.compile(list(files), opts())
+        elif ep == "compile_multiple":
+            Main.compile_multiple(list(files), opts(timestamps=False))
+        elif ep == "compile_timestamps":   # timestamp checking on, outputs absent -> everything is out of date
+            Main.compile(list(files), opts(timestamps=True))
+        elif ep == "compile_cache":        # Build/Cache.py: the first call stores, the second one loads the stored C files
+            Main.compile(list(files), opts(cache=os.path.join(spec["cwd"], "c42cache")))
+        elif ep == "cmdline":              # the `cython` command: CmdLine.parse_command_line + Main.main
+            argv = sys.argv
+            sys.argv = ["cython"] + list(files)
+            try:
+                Main.main(command_line=1)
+            except SystemExit as e:
+                if e.code not in (None, 0):
+                    r["err"] = "exit %r" % (e.code,)
+            finally:
+                sys.argv = argv
+        elif ep == "cythonize":
+            from Cython.Build import cythonize
+            cythonize(list(files), nthreads=step.get("nthreads", 0), force=True, quiet=True)
+        else:
+            r["err"] = "bad entry point"
+    except BaseException as e:
+        r["err"] = "crash %r" % (e,)
+    r["log"] = LOG
+    r["new_contexts"] = len(CONTEXTS) - n0
+    od = os.path.join(spec["outroot"], step["save"])
+    os.makedirs(od, exist_ok=True)
+    r["produced"] = []
+    for f in files:
+        c = f[:-4] + ".c"
+        if os.path.exists(c):
+            shutil.move(c, os.path.join(od, c))
+            r["produced"].append(f)
+    results.append(r)
+print(json.dumps(results))
+'''
+
+
+def run_session_worker(wd, famdir, label, steps, files, seed=0):
+    """a fresh process with its own copy of the family's sources (same relative layout)"""
+    cwd = os.path.join(famdir, "run_" + label)
+    os.makedirs(cwd, exist_ok=True)
+    for n, t in files.items():
+        with open(os.path.join(cwd, n), "w") as f:
+            f.write(t)
+    env = cybuild.base_env()
+    env["PYTHONHASHSEED"] = str(seed)
+    env["VERIF_HARNESS"] = cybuild.HERE
+    path = os.path.join(wd, "c42_session_worker.py")
+    if not os.path.exists(path):
+        with open(path + ".tmp%d" % os.getpid(), "w") as f:
+            f.write(SESSION_WORKER)
+        os.replace(path + ".tmp%d" % os.getpid(), path)
+    outroot = os.path.join(famdir, "out_" + label)
+    p = subprocess.run([cybuild.PY, path, json.dumps({"cwd": cwd, "outroot": outroot, "steps": steps})],
+                       capture_output=True, text=True, env=env, timeout=1500)
+    try:
+        return outroot, json.loads(p.stdout.strip().splitlines()[-1])
+    except Exception:
+        return outroot, {"_worker": "rc=%s %s" % (p.returncode, p.stderr[-600:])}
+
+
+def session_plan(rng, fam, quick, heavy):
+    """-> [(label, seed, [steps])]: one entry = one fresh process"""
+    mods = fam["modules"]
+    perms = [list(p) for p in itertools.permutations(mods)]
+    if len(perms) > 6:
+        rng.shuffle(perms)
+        # every module first once and last once, then a sample
+        keep = []
+        for m in mods:
+            keep.append(next(p for p in perms if p[0] == m))
+            keep.append(next(p for p in perms if p[-1] == m))
+        perms = [list(x) for x in dict.fromkeys(tuple(p) for p in keep + perms[:(4 if quick else 10)])]
+    plan = []
+    for i, m in enumerate(mods):
+        plan.append(("iso%d" % i, 0, [dict(ep="compile_str", files=[m], save="s0")]))
+    def steps(ep, ps, **kw):
+        return [dict(ep=ep, files=p, save="s%d" % i, **kw) for i, p in enumerate(ps)]
+    if heavy:
+        plan.append(("list", 1, steps("compile_list", perms)))
+        rot = perms[1::2] + perms[0::2]
+        plan.append(("multi", 2, steps("compile_multiple", rot if not quick else rot[:3])))
+        plan.append(("cmd", 3, steps("cmdline", perms[::-1] if not quick else perms[::-1][:3])))
+        # the same process: every module alone, the batch with timestamps, every module alone again (reversed)
+        rep = [dict(ep="compile_str", files=[m], save="r%d" % i) for i, m in enumerate(mods)]
+        rep.append(dict(ep="compile_timestamps", files=perms[-1], save="rts"))
+        rep += [dict(ep="compile_cache", files=perms[0], save="rc0"), dict(ep="compile_cache", files=perms[-1], save="rc1")]
+        rep += [dict(ep="compile_str", files=[m], save="q%d" % i) for i, m in enumerate(reversed(mods))]
+        plan.append(("repeat", 4, rep))
+        plan.append(("cy0", 5, steps("cythonize", [perms[0], perms[-1]] if quick else perms[:4], nthreads=0)))
+        plan.append(("cy4", 6, steps("cythonize", [perms[len(perms) // 2]], nthreads=4)))
+        if not quick and fam["tag"] in ("a", "d"):
+            # one fresh process per (entry point, order)
+            for i, p in enumerate(perms):
+                plan.append(("flist%d" % i, 7 + i, steps("compile_list", [p])))
+                plan.append(("fcmd%d" % i, 20 + i, steps("cmdline", [p])))
+    else:
+        plan.append(("list", 1, steps("compile_list", perms)))
+        if not quick:
+            plan.append(("cmd", 3, steps("cmdline", perms[::-1])))
+            plan.append(("cy0", 5, steps("cythonize", perms[:2], nthreads=0)))
+    return plan
+
+
+def model_lines(fam, batches):
+    pxds = ",".join("".join(e["kind"] for e in pd["entries"]) or "-" for pd in fam["pxds"])
+    def mod_str(mm):
+        return ";".join("%d:%s" % (pi, ".".join(map(str, marked))) for pi, marked in mm) or "-"
+    idx = {m: i for i, m in enumerate(fam["modules"])}
+    return pxds, [lambda reset, b=b: "session %d %s %s" % (reset, pxds, "|".join(mod_str(fam["model"][idx[m]]) for m in b)) for b in batches]
+
+
+def parse_model_out(line):
+    outs = []
+    for part in line.split("|"):
+        ps, os_ = part.split("#")
+        parsed = [] if ps == "-" else [int(x) for x in ps.split(",")]
+        out = [] if os_ == "-" else [tuple(int(y) for y in x.split(":")) for x in os_.split(",")]
+        outs.append((sorted(parsed), sorted(out)))
+    return outs
+
+
+def classify_session(ep, pos, step_i, source="", earlier_sources=()):
+    # Builtin._generate_divmod_function keeps its C-integer specialisations in the process-wide builtin scope: a module
+    # calling divmod() on C integers after another compilation of the same process did so (known finding)
+    if "divmod(" in source and any("divmod(" in e for e in earlier_sources):
+        return "process_history_divmod_specialisation_reused"
+    if pos > 0:
+        return "c_output_depends_on_batch_prefix"
+    if step_i > 0:
+        return "c_output_depends_on_process_history"
+    return "c_output_depends_on_entry_point"
+
+
+def start_session_families(ctx, ex):
+    """generate the families and submit their processes; returns the state evaluate_session_families needs"""
+    quick = ctx.tier == "quick"
+    import random
+    rng = random.Random(ctx.seed * 1000003 + 4242)     # own stream: the modules of the older strata keep their content
+    wd = ctx.workdir
+    fams = []
+    specs = [("a", 3, False, False, True), ("b", 3, True, True, False)] if quick else \
+            [("a", 3, False, False, True), ("b", 3, True, True, True), ("c", 3, False, True, True), ("d", 4, False, False, True),
+             ("e", 5, False, False, False), ("f", 4, True, False, False), ("g", 3, False, False, False), ("h", 3, False, False, False)]
+    for tag, nmod, with_impl, with_mv, heavy in specs:
+        fam = gen_family(rng, tag, nmod, with_impl, with_mv)
+        famdir = os.path.join(wd, "fam_" + tag)
+        os.makedirs(famdir, exist_ok=True)
+        plan = session_plan(rng, fam, quick, heavy)
+        futs = {label: ex.submit(run_session_worker, wd, famdir, label, steps, fam["files"], seed) for label, seed, steps in plan}
+        fams.append((fam, famdir, plan, futs))
+    return fams
+
+
+def evaluate_session_families(ctx, fams):
+    runner = ctx.model("session")
+    for fam, famdir, plan, futs in fams:
+        tag = fam["tag"]
+        res = {label: fu.result() for label, fu in futs.items()}
+        pats = entry_patterns(fam)
+        pxd_index = {pd["name"] + ".pxd": i for i, pd in enumerate(fam["pxds"])}
+        iso = {}
+        for i, m in enumerate(fam["modules"]):
+            outroot, r = res["iso%d" % i]
+            p = os.path.join(outroot, "s0", m[:-4] + ".c")
+            iso[m] = open(p, "rb").read() if os.path.exists(p) else None
+            if iso[m] is None:
+                ctx.corr_break("generated family module translates alone", {"family": tag, "module": m, "source": fam["files"][m]},
+                               str(r)[:600], "C file")
+        if any(v is None for v in iso.values()):
+            continue
+        idx = {m: i for i, m in enumerate(fam["modules"])}
+        cy_raw = {}
+        # tie, part 1: the isolated outputs against the model's isolated outputs (declarations written, .pxd files parsed)
+        queue = []     # (kind, label, step index, step result, outroot)
+        for label, seed, steps in plan:
+            outroot, r = res[label]
+            if not isinstance(r, list):
+                ctx.corr_break("session worker ran", {"family": tag, "process": label}, str(r)[:600], "JSON result")
+                continue
+            for si, (step, sr) in enumerate(zip(steps, r)):
+                queue.append((label, si, step, sr, outroot))
+        lines = []
+        meta = []
+        for label, si, step, sr, outroot in queue:
+            files = step["files"]
+            log = sr.get("log") or []
+            shared = None
+            if step["ep"] == "cythonize" and sorted(l["src"] for l in log) == sorted(files):
+                files = [l["src"] for l in log]
+            if len(log) == len(files) and [l["src"] for l in log] == files:
+                ids = [l["ctx"] for l in log]
+                if len(set(ids)) == len(ids):
+                    shared = False
+                elif len(set(ids)) == 1 and len(ids) > 1:
+                    shared = True
+                else:
+                    shared = "mixed"
+            if fam["model"] is not None and shared in (False, True) and step["ep"] != "compile_str":
+                pxds, mk = model_lines(fam, [files])
+                lines.append(mk[0](0 if shared else 1))
+                meta.append((label, si))
+        model_out = dict(zip(meta, [parse_model_out(l) for l in runner.batch(lines)])) if lines else {}
+        if fam["model"] is not None:
+            pxds, mk = model_lines(fam, [[m] for m in fam["modules"]])
+            iso_model = [parse_model_out(l)[0] for l in runner.batch([f(1) for f in mk])]
+        history = {}    # process label -> modules compiled so far in that process
+        for label, si, step, sr, outroot in queue:
+            files = step["files"]
+            ep = step["ep"] + ("-nthreads%d" % step["nthreads"] if "nthreads" in step else "")
+            log = sr.get("log") or []
+            in_process = not (step["ep"] == "cythonize" and step.get("nthreads"))
+            if in_process and step["ep"] == "cythonize" and sorted(l["src"] for l in log) == sorted(files):
+                files = [l["src"] for l in log]      # cythonize() orders its work list itself: the order actually compiled
+            if in_process and step["ep"] != "compile_cache" and ([l["src"] for l in log] != files):
+                ctx.corr_break("one run_pipeline call per source, in the given order", {"family": tag, "process": label, "step": si, "files": files},
+                               [l["src"] for l in log], files)
+            for pos, m in enumerate(files):
+                inp = {"family": tag, "entry_point": ep, "process": label, "step": si, "order": files, "module": m, "position": pos,
+                       "cimports": fam["cimports"][idx[m]] if idx[m] < len(fam["cimports"]) else "implementation module",
+                       "sources": {n: t for n, t in fam["files"].items() if n.endswith((".pxd", ".pyx")) and (n in files or n.endswith(".pxd"))}}
+                stratum = "session-" + ("first" if pos == 0 and si == 0 else "after-prefix" if pos > 0 else "process-history")
+                ctx.case(stratum, {k: inp[k] for k in ("family", "entry_point", "order", "module", "position")},
+                         sig=(tag, ep, label, si, tuple(files), m))
+                p = os.path.join(outroot, step["save"], m[:-4] + ".c")
+                got = open(p, "rb").read() if os.path.exists(p) else None
+                if got is None:
+                    ctx.fail("batch_compile_failed" if len(files) > 1 or si > 0 else "compile_failed", inp,
+                             "no C file; %s" % str(sr.get("err"))[:300], "the C file the module gives when compiled alone")
+                    continue
+                cmp = strip_metadata(got) if step["ep"] == "cythonize" else got
+                earlier = (history.get(label, []) + files[:pos]) if in_process else [x for x in files if x != m]
+                klass = classify_session(ep, pos, si, fam["files"][m], [fam["files"][x] for x in earlier])
+                if step["ep"] == "cythonize":
+                    ref_raw = cy_raw.setdefault(m, (got, ep, files))
+                    if ref_raw[0] != got:
+                        ctx.fail(klass if klass.startswith("process_history_divmod") else "c_output_depends_on_batch_mode",
+                                 dict(inp, reference={"entry_point": ref_raw[1], "order": ref_raw[2]}),
+                                 first_diff(ref_raw[0], got), "byte-identical cythonize() outputs (metadata block included) for every order / nthreads")
+                if cmp != iso[m]:
+                    ctx.fail(klass, inp, first_diff(iso[m], cmp),
+                             "byte-identical to the C file of the module compiled alone in a fresh process")
+                # tie, part 2: declarations written / .pxd files parsed against the session model run with the observed reset flag
+                if fam["model"] is not None and idx[m] < len(fam["model"]):
+                    mo = model_out.get((label, si))
+                    if step["ep"] == "compile_str":
+                        mo_m = iso_model[idx[m]]
+                    elif mo is not None:
+                        mo_m = mo[pos]
+                    else:
+                        mo_m = None
+                    if mo_m is not None:
+                        written = written_entries(fam, cmp, pats)
+                        if written != mo_m[1]:
+                            ctx.corr_break("declarations of cimported .pxd entries written (session model, observed reset flag)",
+                                           {k: inp[k] for k in ("family", "entry_point", "order", "module", "position")}, written, mo_m[1])
+                        if in_process and pos < len(log):
+                            parsed = sorted(pxd_index[x] for x in set(log[pos]["parsed"]) if x in pxd_index)
+                            if parsed != mo_m[0]:
+                                ctx.corr_break(".pxd files parsed for the source (session model, observed reset flag)",
+                                               {k: inp[k] for k in ("family", "entry_point", "order", "module", "position")}, parsed, mo_m[0])
+            history.setdefault(label, []).extend(files)
+            # the observed session structure itself: compile_multiple must give every source its own Context
+            if in_process and len(files) > 1 and len(log) == len(files):
+                ids = [l["ctx"] for l in log]
+                ctx.case("session-context-per-source", {"family": tag, "entry_point": ep, "order": files}, sig=(tag, ep, label, si, "ctx"))
+                if 1 < len(set(ids)) < len(ids):
+                    ctx.corr_break("Context objects per source: all distinct (reset) or one for all (no reset)",
+                                   {"family": tag, "entry_point": ep, "order": files}, ids, "no mixed sharing in the session model")
+                ctx.extra["contexts_shared_between_sources"] = ctx.extra.get("contexts_shared_between_sources", False) or len(set(ids)) != len(ids)
+        ctx.extra.setdefault("session_families", []).append(
+            {"family": tag, "modules": fam["modules"], "cimports": fam["cimports"], "processes": len(plan),
+             "model_tied": fam["model"] is not None})
